@@ -298,30 +298,6 @@ def returnedFiles (evs : List Event) : List DFile :=
     | .files fs => fs
     | _ => []
 
-def conformantEvent (own : List DFile) (listed : List Name) (e : Event) : Bool :=
-  match e with
-  | (.list, .listing l) => l == listed
-  | (.symbol n, .files fs) => fs.all (· ∈ own) && fs.any (fun f => decide (definesService f n))
-  | (.filename n, .files fs) => fs.all (· ∈ own) && n ∈ fileNames fs
-  | _ => false
-
-def focusedEvent (own : List DFile) (e : Event) : Bool :=
-  match e with
-  | (.symbol n, .files fs) =>
-    let roots := fileNames (own.filter fun f => decide (definesService f n))
-    fs.all fun g => g.name ∈ reachB own roots
-  | (.filename n, .files fs) => fs.all fun g => g.name ∈ reachB own [n]
-  | _ => true
-
-def specRoots (cfg : Cfg) (own : List DFile) (listed : List Name) : List Name :=
-  let names := specNames cfg listed
-  fileNames (own.filter fun f => f.services.any fun s => s.name ∈ names)
-
-/-- breadth-first import depth of the wanted services' files fits the limit -/
-def depthFits (cfg : Cfg) (own : List DFile) (listed : List Name) : Bool :=
-  let roots := specRoots cfg own listed
-  (reachB own roots).all (· ∈ withinB own roots cfg.limit)
-
 def servicesPart (result : String) : String := (splitFirst "#" result).2
 
 /-- which clause of `wfFilesB` a descriptor set breaks -/
